@@ -15,6 +15,7 @@ CONSTANTS MaxStages,   \* chained stages after the base stage
           Horizon,     \* how far infinite sources are looked at
           KMax,        \* consumer next() calls
           Wide,        \* TRUE: the larger stage / base / source universes
+          Slim,        \* TRUE: start from a few bases / sources only (quick interleaving dump, deep wide cases)
           MaxDerive    \* builder: derivations per history
 
 VARIABLES phase, pred
@@ -42,6 +43,10 @@ StagesWide == StagesNarrow \cup {
   St("filter", "lt2_check"), St("filter", "lt2_spec"), St("filter", "item0_T"),
   St("takewhile", "item0_T"), St("takewhile", "lt2_tup"), St("dropwhile", "item0_T"), St("dropwhile", "odd_spec"),
   St("unique", "item0_spec"), St("unique", "mod2_tup"), Stage("split", "fn", 0, -1, 0, VStr("odd")),
+  \* sizes at the boundaries of the finite sources (lengths 4, 6, 7): exactly the length, one beyond
+  Slice("limit", 0, 7, 1), Slice("slice1", 0, 8, 1), Slice("slice", 6, 7, 1), Slice("slice", 7, -1, 1),
+  Stage("chunked", "", 7, 0, 0, N0), Stage("chunked", "", 1, 0, 0, N0), Stage("windowed", "", 4, 0, 0, N0),
+  Stage("windowed", "", 5, 0, 0, N0), Stage("split", "none", 0, 1, 0, N0),
   \* keys that read the scope of the running call
   St("map", "inc_S"), St("filter", "lt2_S"), St("takewhile", "lt2_S"), St("dropwhile", "lt2_S"), St("unique", "mod2_S"),
   St("map", "dup"), St("map", "T"), St("map", "stop_at2"), St("filter", "odd"), St("filter", "lt2"),
@@ -63,18 +68,27 @@ I(n) == VInt(n)
 SourcesNarrow == {
   [kind |-> "count", items |-> <<>>],
   [kind |-> "cyc", items |-> <<I(1), I(2), N0, I(0), I(3)>>],
-  Fin(<<I(1), I(2), I(0), I(3), I(1), N0, I(2)>>),
+  Fin(<<I(1), I(2), I(0), I(3), VBool(FALSE), N0, I(2)>>),
   Fin(<<N0, I(1), N0, N0, I(2), I(3)>>),
-  Fin(<<VList(<<I(1), I(2)>>), VList(<<>>), VList(<<I(0), I(3)>>), VTuple(<<I(1)>>)>>),
+  Fin(<<VList(<<I(1), I(2)>>), VList(<<>>), VFList(<<I(0), I(3)>>), VTuple(<<I(1)>>)>>),
   Fin(<<>>) }
 SourcesWide == SourcesNarrow \cup {
   Fin(<<I(3)>>),
+  \* falsy-but-meaningful and equal-but-distinct items; boundary sizes (see the stages below)
+  Fin(<<VBool(TRUE), I(1), VBool(FALSE), I(0), VFList(<<I(0), I(2)>>), N0, VTuple(<<>>)>>),
+  Fin(<<VFList(<<I(1), I(2)>>), VList(<<>>), VFList(<<I(0)>>), VTuple(<<VBool(FALSE)>>)>>),
   Fin(<<I(1), VAny, I(0), VNull, I(2), N0, VAny>>),          \* items with hostile == / !=
   Fin(<<VList(<<I(1), I(2)>>), VList(<<I(0)>>), VList(<<I(0), I(3)>>), VTuple(<<I(1)>>), VList(<<I(2), I(2)>>)>>),
   Fin(<<I(1), I(1), I(3), I(2), I(4), I(5), I(7), I(6), I(0)>>),
   [kind |-> "cyc", items |-> <<VList(<<I(1)>>), VList(<<I(0), I(2)>>)>>] }
 Sources == IF Wide THEN SourcesWide ELSE SourcesNarrow
 
+SlimBases == { BaseStage("T", STOP, FALSE), BaseStage("inc_S", STOP, FALSE) }
+SlimSources == {
+  [kind |-> "count", items |-> <<>>],
+  Fin(<<VBool(TRUE), I(1), VBool(FALSE), I(0), VFList(<<I(0), I(2)>>), N0, VTuple(<<>>)>>),
+  Fin(<<I(1), VAny, I(0), VNull, I(2), N0, VAny>>),
+  Fin(<<VList(<<I(1), I(2)>>), VList(<<I(0)>>), VList(<<I(0), I(3)>>), VTuple(<<I(1)>>), VList(<<I(2), I(2)>>)>>) }
 NoPull == /\ loc = <<>> /\ pos = 0 /\ srcEnded = FALSE /\ outs = <<>> /\ fin = "run"
           /\ ctl = IdleCtl /\ built = 0 /\ nreq = 0 /\ ev = <<>>
 NoBuild == objs = <<>> /\ cells = <<>> /\ bhist = <<>>
@@ -84,7 +98,8 @@ Pr(p, s) == Predict(p, s, KMax, Horizon)
 \* model 1: definitional cases
 \* =====================================================================================
 InitDef == /\ phase = 0 /\ kmax = KMax /\ NoPull /\ NoBuild
-           /\ \E b \in Bases, s \in Sources : pipe = <<b>> /\ srcd = s /\ pred = Pr(<<b>>, s)
+           /\ \E b \in (IF Slim THEN SlimBases ELSE Bases), s \in (IF Slim THEN SlimSources ELSE Sources) :
+                 pipe = <<b>> /\ srcd = s /\ pred = Pr(<<b>>, s)
 GrowDef == /\ Len(pipe) <= MaxStages
            /\ \E st \in Stages : pipe' = Append(pipe, st) /\ pred' = Pr(pipe', srcd)
            /\ UNCHANGED <<phase, srcd, kmax, loc, pos, srcEnded, outs, fin, ctl, built, nreq, ev, objs, cells, bhist>>
@@ -130,7 +145,8 @@ DefTerminals ==
 \* model 2: the pull machine on every case
 \* =====================================================================================
 InitPull == /\ phase = 0 /\ kmax = KMax /\ NoPull /\ NoBuild
-            /\ \E b \in Bases, s \in Sources : pipe = <<b>> /\ srcd = s /\ pred = Pr(<<b>>, s)
+            /\ \E b \in (IF Slim THEN SlimBases ELSE Bases), s \in (IF Slim THEN SlimSources ELSE Sources) :
+                  pipe = <<b>> /\ srcd = s /\ pred = Pr(<<b>>, s)
 GrowPull == /\ phase = 0 /\ Len(pipe) <= MaxStages
             /\ \E st \in Stages : pipe' = Append(pipe, st) /\ pred' = Pr(pipe', srcd)
             /\ UNCHANGED <<phase, srcd, kmax, loc, pos, srcEnded, outs, fin, ctl, built, nreq, ev, objs, cells, bhist>>
